@@ -180,13 +180,9 @@ pub fn prop_value(r: &mut Rng, id: u8, big: bool) -> PV {
     let spec = prop_spec(id).expect("known id");
     match spec.kind {
         PK::Byte => PV::Byte(r.below(2) as u8),
-        PK::U16 => PV::U16(match r.below(4) {
-            0 => 0,
-            1 => 65_535,
-            _ => r.u16(),
-        }),
+        PK::U16 => PV::U16(u16_biased(r)),
         PK::U32 => PV::U32(match r.below(4) {
-            0 => 0,
+            0 => *r.pick(&[0u32, 1, 0xff, 0x100, 0xffff, 0x1_0000, 0x7fff_ffff, 0x8000_0000, u32::MAX - 1, u32::MAX]),
             1 => u32::MAX,
             _ => r.u32(),
         }),
@@ -209,6 +205,14 @@ pub fn prop_value(r: &mut Rng, id: u8, big: bool) -> PV {
         }
         PK::Bin => PV::Bin(binary(r, big)),
         PK::Pair => PV::Pair(text(r, big), text(r, big)),
+    }
+}
+
+/// 16-bit values with the byte- and sign-boundaries over-represented.
+pub fn u16_biased(r: &mut Rng) -> u16 {
+    match r.below(4) {
+        0 => *r.pick(&[0u16, 1, 0x7f, 0x80, 0xff, 0x100, 0x7fff, 0x8000, 0xfffe, 0xffff]),
+        _ => r.u16(),
     }
 }
 
@@ -308,7 +312,7 @@ pub fn gen_rp(r: &mut Rng, fam: Fam, typ: u8, big: bool) -> RP {
                 name: name.to_vec(),
                 level,
                 clean: r.bool(),
-                keep_alive: r.u16(),
+                keep_alive: u16_biased(r),
                 client_id: text(r, which == 0),
                 will: if r.bool() { Some(gen_will(r, fam, which == 1)) } else { None },
                 username: if r.bool() { Some(text(r, which == 2)) } else { None },
@@ -495,7 +499,7 @@ pub fn enum_g2(r: &mut Rng, fam: Fam, subset_cap: u32, f: &mut dyn FnMut(RP)) {
                             name: name.to_vec(),
                             level,
                             clean,
-                            keep_alive: r.u16(),
+                            keep_alive: u16_biased(r),
                             client_id: text(r, false),
                             will: w,
                             username: if user { Some(text(r, false)) } else { None },
@@ -590,7 +594,7 @@ pub fn host_for_props(r: &mut Rng, ctx: u8, ps: Props) -> RP {
                 name: b"MQTT".to_vec(),
                 level: 5,
                 clean: r.bool(),
-                keep_alive: r.u16(),
+                keep_alive: u16_biased(r),
                 client_id: text(r, false),
                 will: Some(RWill { qos: r.below(3) as u8, retain: r.bool(), topic: topic_name(r, false), payload, props: ps }),
                 username: None,
